@@ -74,6 +74,38 @@ Theorem C17_lucky_reset : forall f1 f2 ops,
 Proof. exact lucky_reset_forgets. Qed.
 Print Assumptions C17_lucky_reset.
 
+(* Reset equals fresh: the filter returned by NewLuckyPacketFilter(cap, pick), taken through ANY history
+   pre and then Reset, answers every further history exactly like a filter just constructed. *)
+Theorem C17_lucky_reset_fresh : forall cap pick f0 pre f ops,
+  lucky_new cap pick = Some f0 -> lucky_after f0 pre = Some f ->
+  lucky_run f (LReset :: ops) = lucky_run f0 ops.
+Proof. exact lucky_reset_equals_new. Qed.
+Print Assumptions C17_lucky_reset_fresh.
+
+(* ... and for ALL states (not only reachable ones): Reset leaves the empty window of the same configuration *)
+Theorem C17_lucky_reset_state : forall f, lucky_reset f = lucky_fresh (lk_cap f) (lk_pick f).
+Proof. exact lucky_reset_is_fresh. Qed.
+Print Assumptions C17_lucky_reset_state.
+
+(* Ties (equal round-trip delays; outside the property's quantifier).  slices.SortFunc on at most 12 elements
+   is insertionSortCmpFunc (go_isort models its loop literally).  It is the stable sort: the samples of any
+   one delay d stay in window order, so among equal delays the OLDER samples are the ones kept, and the
+   executable model computes exactly the filter's output.  Longer windows with ties go through pdqsort
+   proper and are compared by contract (any sorted permutation). *)
+Theorem C17_lucky_ties : forall pick w,
+  go_isort l_rtd w = isort l_rtd w /\
+  (forall d, filter (fun m => l_rtd m =? d) (go_isort l_rtd w) = filter (fun m => l_rtd m =? d) w) /\
+  lucky_out_of pick w (go_isort l_rtd w) = lucky_result (lucky_select pick w).
+Proof. exact lucky_ties_small. Qed.
+Print Assumptions C17_lucky_ties.
+
+(* two samples of equal delay, one lucky packet: the older one's offset is returned *)
+Example C17_lucky_ties_example :
+  let w := [ {| l_stamp := 0; l_off := 5; l_rtd := 10 |}; {| l_stamp := 1; l_off := 6; l_rtd := 10 |};
+             {| l_stamp := 2; l_off := 1; l_rtd := 40 |} ] in
+  lucky_out_of 1 w (go_isort l_rtd w) = 5 /\ lucky_result (lucky_select 1 w) = 5.
+Proof. vm_compute. split; reflexivity. Qed.
+
 (* ================= Ntimed filter ================= *)
 
 (* raw_f s = Inv(Duration((lo+hi)/2)) in binary64 is a function of the sample alone.
@@ -105,6 +137,21 @@ Theorem C17_ntimed_reset : forall f1 f2 op rest,
   nt_run f1 (op :: rest) = nt_run f2 (op :: rest).
 Proof. exact reset_forgets. Qed.
 Print Assumptions C17_ntimed_reset.
+
+(* Reset equals fresh: for ALL states f (reachable or not) and all epochs, what follows a Reset is what a new
+   filter returns on the same history; the same after a Do under another epoch than the filter's. *)
+Theorem C17_ntimed_reset_fresh : forall f e ops, nt_run f (NReset e :: ops) = nt_run (nt_zero 0) ops.
+Proof. exact reset_equals_fresh. Qed.
+Print Assumptions C17_ntimed_reset_fresh.
+
+Theorem C17_ntimed_reset_state : forall f e, nt_after f [NReset e] = nt_zero e.
+Proof. exact reset_state. Qed.
+Print Assumptions C17_ntimed_reset_state.
+
+Theorem C17_ntimed_epoch_fresh : forall f e s ops, nt_epoch f <> e ->
+  nt_run f (NDo e s :: ops) = nt_run (nt_zero 0) (NDo e s :: ops).
+Proof. exact epoch_change_equals_fresh. Qed.
+Print Assumptions C17_ntimed_epoch_fresh.
 
 (* ... so replaying every stretch between reset points on a new filter reproduces the outputs *)
 Theorem C17_ntimed_restart : forall ops f, nt_run_restarting f ops = nt_run f ops.
@@ -139,7 +186,39 @@ Theorem C17_ntimed_raw_sign : forall s, Z.abs (lo_ns s) < 2^62 -> Z.abs (hi_ns s
 Proof. exact raw_f_sign. Qed.
 Print Assumptions C17_ntimed_raw_sign.
 
-(* the closeness clause of the property oracle, on every sample (beyond 2^62 ns the oracle does not judge) *)
+(* The wild range.  Time.Sub saturates, so lo and hi are always int64 values; ntp.ClockOffset adds the two
+   saturated differences in int64 and WRAPS (raw_offset).  The Ntimed filter does not wrap: on every sample with
+   lo + hi < 2^64 - 2^14 its output is within the same tolerance of the offset over the integers,
+   wide_offset s = -(lo + hi) / 2 (including Inv's saturation at +2^63). *)
+Theorem C17_wild_saturates : forall s, min_i64 <= lo_ns s <= max_i64 /\ min_i64 <= hi_ns s <= max_i64.
+Proof. exact lo_hi_range. Qed.
+Print Assumptions C17_wild_saturates.
+
+Theorem C17_ntimed_raw_wide : forall s, lo_ns s + hi_ns s < 2^64 - 2^14 ->
+  Z.abs (raw_f s - wide_offset s) <= raw_tol s.
+Proof. exact raw_f_wide_Z. Qed.
+Print Assumptions C17_ntimed_raw_wide.
+
+(* below 2^62 the two references coincide *)
+Theorem C17_raw_offset_is_wide : forall s, Z.abs (lo_ns s) < 2^62 -> Z.abs (hi_ns s) < 2^62 -> raw_offset s = wide_offset s.
+Proof. exact raw_offset_exact. Qed.
+Print Assumptions C17_raw_offset_is_wide.
+
+(* The corner lo + hi >= 2^64 - 2^14 (both one-way differences within 8 us of +292 years): still close, or
+   mid * 1e9 rounded to 2^63, int64() of it is -2^63 and Inv returns MaxInt64 (wrong sign: the offset is -2^63). *)
+Theorem C17_ntimed_raw_corner : forall s, 2^64 - 2^14 <= lo_ns s + hi_ns s ->
+  Z.abs (raw_f s - wide_offset s) <= raw_tol s \/ raw_f s = max_i64.
+Proof. exact raw_f_corner. Qed.
+Print Assumptions C17_ntimed_raw_corner.
+
+(* the corner exists: both differences saturated; the Ntimed filter says +292 years, ntp.ClockOffset wraps to 0 *)
+Example C17_ntimed_corner_example :
+  let s := {| sm_ctx := 2^63 + 5; sm_srx := 0; sm_stx := 0; sm_crx := 2^63 + 5 |} in
+  lo_ns s = max_i64 /\ hi_ns s = max_i64 /\ raw_f s = max_i64 /\ wide_offset s = - max_i64 /\ raw_offset s = 0.
+Proof. vm_compute. repeat split; reflexivity. Qed.
+
+(* the closeness clause of the property oracle, on every sample: against ntp.ClockOffset below 2^62 ns, against
+   wide_offset beyond, MaxInt64 tolerated in the corner *)
 Theorem C17_ntimed_raw_close_oracle : forall s, raw_close s (raw_f s) = true.
 Proof. exact raw_f_close. Qed.
 Print Assumptions C17_ntimed_raw_close_oracle.
